@@ -16,27 +16,39 @@ open Furiko Furiko.JobCtl Furiko.WQ Furiko.StatusLemmas Furiko.JobCtlPlan Furiko
 
 /-! ### a lower bound on finish times (for the TTL) -/
 
-/-- whatever phase the pod ends in, the finish time it reports is at least `F0` -/
+/-- whatever phase the pod ends in, the finish time it reports (`GetFinishTimestamp`, fallbacks included) is
+at least `F0` -/
 def PodFinLB (F0 : Int) (p : PodObj) : Prop :=
-  ∀ ph t f, podTask { p with pod := { p.pod with phase := ph } } = some t → t.ref.finishTimestamp = some f → F0 ≤ f
+  ∀ ph f, ({ p with pod := { p.pod with phase := ph } } : PodObj).pod.finishTimestamp = some (some f) → F0 ≤ f
 
-theorem podFinLB_self {F0 : Int} {p : PodObj} (h : PodFinLB F0 p) {t : Task} {f : Time} (ht : podTask p = some t)
-    (hf : t.ref.finishTimestamp = some f) : F0 ≤ f := h p.pod.phase t f ht hf
+theorem podFinLB_raw {F0 : Int} {p : PodObj} (h : PodFinLB F0 p) {f : Time}
+    (hf : p.pod.finishTimestamp = some (some f)) : F0 ≤ f := h p.pod.phase f hf
+
+/-- … and so is the finish time a pass whose clock is at least `F0` records for it (a pod that does not
+tell when it finished is recorded with the clock of the pass) -/
+theorem podFinLB_self {F0 : Int} {p : PodObj} (h : PodFinLB F0 p) {now : Time} (hn : F0 ≤ now) {t : Task} {f : Time}
+    (ht : podTask now p = some t)
+    (hf : t.ref.finishTimestamp = some f) : F0 ≤ f :=
+  podTask_finish_lb ht hn (fun f hf => podFinLB_raw h hf) f hf
 
 theorem podFinLB_sweep {F0 : Int} (orc : String → Outcome) {p : PodObj} (h : PodFinLB F0 p) : PodFinLB F0 (sweepPod orc p) := by
   unfold sweepPod
   split
   · exact h
-  · intro ph t f ht hf
-    exact h ph t f ht hf
+  · intro ph f hf
+    exact h ph f hf
 
 theorem podFinLB_newPod (F0 : Int) (jo : JobObj) (idx : PIndex) (retry : Int) (c : Time) (h : F0 ≤ c) :
     PodFinLB F0 (newPod jo idx retry c) := by
-  intro ph t f ht hf
+  intro ph f hf
   cases ph <;>
-    simp [podTask, Pod.task, Pod.taskRef, Pod.finishTimestamp, Pod.isFinished, newPod, containerTerminateTime,
-      reasonDeadlineExceeded] at ht <;> subst ht <;> simp at hf
+    simp [Pod.finishTimestamp, Pod.isFinished, newPod, containerTerminateTime,
+      reasonDeadlineExceeded] at hf
   all_goals (subst hf; exact h)
+
+theorem nowT_le_clock (s : Sys) : nowT s ≤ s.clock := by
+  unfold nowT nowSec secs nsPerSec
+  exact Int.ediv_mul_le s.clock (show (1000000000 : Int) ≠ 0 by decide)
 
 /-! ### the invariant -/
 
@@ -65,6 +77,8 @@ structure Busy (jo : JobObj) (s : Sys) : Prop where
 
 section derived
 variable {ok : Sys → Action → Prop} {j0 jo : JobObj} {F0 : Int} {s : Sys}
+
+theorem Canon.lbNow (h : Canon ok j0 jo F0 s) : F0 ≤ s.clock := Int.le_trans h.lbClock (nowT_le_clock s)
 
 theorem Canon.ver (h : Canon ok j0 jo F0 s) : VerOK j0 jo := ((base_of_reach h.reach).jobOK jo h.fresh.job).1
 
